@@ -159,6 +159,7 @@ type job struct {
 	Samples int      `json:"samples,omitempty"`
 	CapSec  int      `json:"cap_sec,omitempty"`
 	Retries int      `json:"retries,omitempty"`
+	HangSec int      `json:"hang_sec,omitempty"`
 }
 
 type violation struct {
@@ -207,6 +208,14 @@ type batchOut struct {
 	Samples     []*result        `json:"samples,omitempty"`
 	WallS       float64          `json:"wall_s"`
 	ClassCounts map[string]int   `json:"class_counts,omitempty"`
+	Hang        *hangInfo        `json:"hang,omitempty"`
+}
+
+type hangInfo struct {
+	Index int    `json:"index"`
+	Seed  uint64 `json:"seed"`
+	Sec   int    `json:"sec"`
+	Stack string `json:"stack"`
 }
 
 type shrinkOut struct {
@@ -363,6 +372,7 @@ type replayFile struct {
 	Sample    []string               `json:"sample"`
 	Shrink    map[string]interface{} `json:"shrink"`
 	Tree      map[string]interface{} `json:"tree"`
+	Hang      bool                   `json:"hang,omitempty"` // replay = re-run run_index of base_seed and expect no progress again
 }
 
 func check(id, tier string) int {
@@ -455,6 +465,9 @@ func check(id, tier string) int {
 			agg.ClassCounts[k] += v
 		}
 		agg.Internal = append(agg.Internal, o.Internal...)
+		if o.Hang != nil && (agg.Hang == nil || o.Hang.Index < agg.Hang.Index) {
+			agg.Hang = o.Hang
+		}
 		agg.Samples = append(agg.Samples, o.Samples...)
 		allFound = append(allFound, o.Found...)
 	}
@@ -486,6 +499,22 @@ func check(id, tier string) int {
 	exit := 0
 	nviol := 0
 	var lines []string
+	if agg.Hang != nil {
+		path, v, err := confirmHang(spec, tier, base, agg.Hang)
+		if err != nil {
+			fmt.Fprintf(os.Stderr, "verif: %v\n", err)
+			return 2
+		}
+		classes = append(classes, v.Class())
+		if k := matchKnown(known, v); k != nil {
+			lines = append(lines, fmt.Sprintf("KNOWN-FINDING: property=%s %s [class %s, replay=%s]", spec.ID, k.What, v.Class(), path))
+		} else {
+			nviol++
+			exit = 1
+			fmt.Printf("violation: %s: %s\n", v.Class(), v.Detail)
+			lines = append(lines, fmt.Sprintf("VIOLATION property=%s replay=%s", spec.ID, path))
+		}
+	}
 	for ci, c := range classes {
 		if ci >= 6 {
 			break
@@ -610,6 +639,57 @@ func minimiseAndRecord(spec *meta.Spec, tier string, base uint64, f found) (stri
 	return path, rf, nil
 }
 
+// confirmHang re-runs a run that made no progress in two fresh processes; it
+// is a violation only if both hang again and the library is on the stack.
+func confirmHang(spec *meta.Spec, tier string, base uint64, h *hangInfo) (string, *violation, error) {
+	for i := 0; i < 2; i++ {
+		o := &batchOut{}
+		j := &job{Mode: "batch", Prop: spec.ID, Tier: tier, Base: base, From: h.Index, To: h.Index + 1, HangSec: h.Sec}
+		if _, err := runWorker(spec, j, time.Duration(h.Sec+60)*time.Second, o); err != nil {
+			return "", nil, fmt.Errorf("run %d (seed %d) made no progress for %ds, but re-running it failed: %v - harness failure, not a violation", h.Index, h.Seed, h.Sec, err)
+		}
+		if o.Hang == nil {
+			return "", nil, fmt.Errorf("run %d (seed %d) made no progress for %ds once but finished when re-run alone (overloaded machine?) - harness failure, not a violation", h.Index, h.Seed, h.Sec)
+		}
+		h = o.Hang
+	}
+	site := hangSite(h.Stack)
+	if site == "" {
+		return "", nil, fmt.Errorf("run %d (seed %d) hangs reproducibly but no goroutine is inside github.com/gobwas/ws - harness failure, not a violation\n%s", h.Index, h.Seed, tail(h.Stack, 30))
+	}
+	v := &violation{Prop: spec.ID, Rule: "hang_no_progress", Entry: spec.Engine,
+		Detail: fmt.Sprintf("run %d (seed %d) makes no progress (no transport operation, no return) for %ds of wall clock, reproducibly in 3 fresh processes; spinning in %s", h.Index, h.Seed, h.Sec, site)}
+	rf := &replayFile{Property: spec.ID, Engine: spec.Engine, Tier: tier, Seed: h.Seed, BaseSeed: base, Index: h.Index, Class: v.Class(), Violation: v,
+		Hang: true, Sample: strings.Split(tail(h.Stack, 60), "\n"), Tree: treeID(), Shrink: map[string]interface{}{"note": "a hang has no tape: the replay re-runs run_index of base_seed"}}
+	dir := filepath.Join(root, "replays")
+	os.MkdirAll(dir, 0o755)
+	path := filepath.Join(dir, fmt.Sprintf("%s-%d-hang.json", spec.ID, h.Seed))
+	b, _ := json.MarshalIndent(rf, "", " ")
+	if err := os.WriteFile(path, b, 0o644); err != nil {
+		return "", nil, err
+	}
+	return path, v, nil
+}
+
+// hangSite finds the innermost library frame of a goroutine that is running
+// (not parked) in the dump.
+func hangSite(stack string) string {
+	for _, g := range strings.Split(stack, "\n\n") {
+		if !strings.Contains(g, "[running]") && !strings.Contains(g, "[runnable]") {
+			continue
+		}
+		for _, l := range strings.Split(g, "\n") {
+			if strings.HasPrefix(l, "github.com/gobwas/ws") {
+				if i := strings.LastIndex(l, "("); i > 0 {
+					l = l[:i]
+				}
+				return l
+			}
+		}
+	}
+	return ""
+}
+
 // retriesFor says how often a replay may be repeated until the class recurs.
 // Only the two C20 classes that mean "Dial no longer waits for its watcher
 // goroutine" get retries: what the abandoned goroutine then does depends on
@@ -643,6 +723,29 @@ func replay(path string) int {
 	if err := json.Unmarshal(b, &rf); err != nil {
 		fmt.Fprintln(os.Stderr, err)
 		return 2
+	}
+	if rf.Hang {
+		spec := meta.Find(rf.Property)
+		if spec == nil {
+			fmt.Fprintln(os.Stderr, "unknown property", rf.Property)
+			return 2
+		}
+		if err := buildWorkers(spec.Race); err != nil {
+			fmt.Fprintln(os.Stderr, err)
+			return 2
+		}
+		o := &batchOut{}
+		j := &job{Mode: "batch", Prop: spec.ID, Tier: rf.Tier, Base: rf.BaseSeed, From: rf.Index, To: rf.Index + 1, HangSec: 60}
+		if _, err := runWorker(spec, j, 150*time.Second, o); err != nil {
+			fmt.Fprintln(os.Stderr, "replay failed:", err)
+			return 2
+		}
+		if o.Hang == nil {
+			fmt.Printf("replay of %s: run %d finishes on this tree\n", path, rf.Index)
+			return 0
+		}
+		fmt.Printf("replay of %s: run %d makes no progress again (%s)\nVIOLATION property=%s replay=%s\n", path, rf.Index, hangSite(o.Hang.Stack), spec.ID, path)
+		return 1
 	}
 	id := rf.Class
 	if i := strings.Index(id, "/"); i > 0 {
